@@ -2,6 +2,8 @@ import CelmaVerif.Lemmas.Groups
 import CelmaVerif.Lemmas.GroupsDispatch
 import CelmaVerif.Lemmas.GroupsCross
 import CelmaVerif.Lemmas.GroupsExamples
+import CelmaVerif.Lemmas.GroupsDispatchValue
+import CelmaVerif.Lemmas.GroupsHistory
 /-
   C08 — evaluating through an argument group equals one handler owning all arguments.
 
@@ -15,12 +17,21 @@ import CelmaVerif.Lemmas.GroupsExamples
                   (groupDests cfg argMember order <$> groupsEval cfg inits argMember globMember order argv)
   Proved: `C08_group_equiv_partial`, under `GroupWellFormed` (abbreviations off, keys pairwise
   non-clashing, no positional argument, constraint partners and the arguments of a handler constraint
-  inside one member) for command lines without the word `!` and without a comma (`ArgvPlain`).
+  inside one member) for command lines without the word `!` and without a comma inside a typed long
+  key (`ArgvPlain`; list values `-m 1,2,3`, `--list=1,2`, `-m1,2` are inside).
+  "Keys pairwise non-clashing" is not an assumption about the program: `C08_accepted_history_disjoint`
+  proves it for every registration history the cross check accepted.
+
+  `C08_end_checks`, `C08_end_checks_standalone` are DEFINITIONAL lemmas (they unfold the model's
+  `groupsEndChecks` / `endChecks`); the clause "rules inside a member are enforced as in stand-alone
+  evaluation" is carried by `C08_group_equiv_partial` / `C08_group_accepts_iff_partial`.
 -/
 namespace CelmaVerif.Props.C08
 open CelmaVerif CelmaVerif.ProgArgs CelmaVerif.Keys
 
-/-- Every rule attached inside a member handler is enforced at the end of a group evaluation: if
+/-- DEFINITIONAL LEMMA (unfolds `groupsEval` / `groupsEndChecks`; not the clause — the end-to-end
+    statement is `C08_group_accepts_iff_partial`).
+    Every rule attached inside a member handler is checked at the end of a group evaluation: if
     `Groups::evalArguments` returns, then for every member the mandatory/cardinality check, the
     check for arguments still required by a `requires` constraint, and the end conditions of the
     member's handler constraints (all-of, one-of, and the value constraints differ / disjoint on the
@@ -34,7 +45,8 @@ theorem C08_end_checks (cfg : Cfg) (inits : List DVal) (argMember globMember ord
       checkGlobals m.1.args m.2.args m.1.globals m.2.globals = .ok () :=
   groupsEval_end_checks cfg inits argMember globMember order argv ms h
 
-/-- … and these are exactly the checks of stand-alone evaluation: `endChecks` of a handler returns
+/-- DEFINITIONAL LEMMA (unfolds `endChecks`; not the clause).
+    … and these are exactly the checks of stand-alone evaluation: `endChecks` of a handler returns
     iff the same three checks pass on its configuration and state (it then only forgets the last
     argument). -/
 theorem C08_end_checks_standalone (cfg : Cfg) (h h' : HState) :
@@ -78,17 +90,23 @@ theorem C08_single_member_accepts (cfg : Cfg) (inits : List DVal) (argv : List W
 
 /-! ### dispatch -/
 
-/-- Each key word is handled by exactly the handler that defines its key.  Members `pre`, then
-    `(c, h)`, then `post`, in registration order; abbreviations off in every member; the members'
-    key tables do not clash pairwise (`MembersDisjoint`, what the cross check establishes); the
-    element is a key element (`-c` / `--word`) looked up with the key `k` (a character or a word,
-    `k.Single`), and an entry of member `c` designates `k`.  Then
+/-- Each key word is handled by exactly the handler that defines its key (partial: key elements,
+    abbreviations off).  Members `pre`, then `(c, h)`, then `post`, in registration order, in
+    ARBITRARY states; abbreviations off in every member; the members' key tables do not clash
+    pairwise (`MembersDisjoint` — what the cross check establishes for every accepted registration
+    history: `C08_accepted_history_disjoint`); the element is a key element (`-c` / `--word`) looked
+    up with the key `k` (a character or a word, `k.Single` — every key typed without a comma is), and
+    an entry of member `c` designates `k`.  Then
     * no entry of any other member equals `k` — `c` is the first and the only member that knows it;
-    * the offer is `c`'s own `evalSingleArgument` answer (same new state, same cursor, same result,
-      same exception), with every other member's state unchanged except that its last-argument
-      marker is cleared (`clearLast`);
-    * that answer is never `unknown`. -/
-theorem C08_dispatch (pre post : List (Cfg × HState)) (c : Cfg) (h : HState) (ai : It) (k : Key)
+    * the offer is `c`'s own `evalSingleArgument` answer (same new state, same cursor — hence the
+      same value word consumed for the key, `--key=value`, `-kvalue` and `-k value` alike —, same
+      result, same exception), with every other member's state unchanged except that its
+      last-argument marker is cleared (`clearLast`);
+    * that answer is never `unknown`.
+    Missing for the full clause: abbreviations (refuted for groups by
+    `C08_finding_group_abbreviation`), a typed long key with a comma (`C08_witness_comma_key`);
+    free values are `C08_dispatch_value_partial`. -/
+theorem C08_dispatch_partial (pre post : List (Cfg × HState)) (c : Cfg) (h : HState) (ai : It) (k : Key)
     (hk : ElemKey ai k) (hs : k.Single)
     (habbr : ∀ m ∈ pre ++ (c, h) :: post, m.1.abbr = false)
     (hd : MembersDisjoint (pre ++ (c, h) :: post))
@@ -105,6 +123,35 @@ theorem C08_dispatch (pre post : List (Cfg × HState)) (c : Cfg) (h : HState) (a
     exact ⟨habbr m (List.mem_append_left _ hm), hothers m (List.mem_append_left _ hm)⟩
   · obtain ⟨e, he, hek⟩ := hc
     exact ⟨e, he, (eq_iff_clash_of_single e.1 k hs).mpr hek⟩
+
+/-- A free value (a word that is neither a key nor attached to one, e.g. the `2` and `3,4` of
+    `-m 1 2 3,4`) is handled by exactly the member whose multi-value argument was used last
+    (partial: no positional argument and abbreviations off in the members asked before).
+    Members `pre`, `(c, h)`, `post` in registration order; the element is a value; every member in
+    `pre` passes a free value on (`PassesValue`: abbreviations off, it defines no positional
+    argument, the argument it handled last — if any — does not take several values; in a run of
+    `Groups::evalArguments` all members but the one that took the last key have no last argument at
+    all, see `C08_dispatch_partial` and `MemRel.last` in `C08_group_states_partial`); member `c`
+    handled its argument `i` last and that argument takes several values.  Then the offer is `c`'s
+    `assignValue` on that argument (same exception if it throws); the members before and behind
+    keep their states exactly, and the answer is `consumed`.
+    Missing: a positional argument in an earlier member takes the value instead
+    (`C08_witness_positional_first`). -/
+theorem C08_dispatch_value_partial (pre post : List (Cfg × HState)) (c : Cfg) (h : HState) (ai : It)
+    (hty : ai.cur.ty = .value) (hpre : ∀ m ∈ pre, PassesValue m)
+    (i : Nat) (d : ArgDef) (hl : h.lastArg = some i) (hd : c.args[i]? = some d) (hm : d.multi = true) :
+    offer (ai.cur.ty != .value) (pre ++ (c, h) :: post) ai =
+      (assignValue h i d ai.cur.val >>= fun h' => pure (pre ++ (c, h') :: post, ai, .consumed)) :=
+  offer_value_dispatch pre post c h ai hty hpre i d hl hd hm
+
+/-- … and a free value that no member takes (every member passes it on) is refused: the offer
+    answers `unknown`, no member state changes, and `Groups::evalArguments` throws
+    `std::runtime_error` (partial in the same sense: no positional argument, abbreviations off). -/
+theorem C08_dispatch_value_nobody_partial (ms : List (Cfg × HState)) (ai : It) (hty : ai.cur.ty = .value)
+    (hall : ∀ m ∈ ms, PassesValue m) :
+    offer (ai.cur.ty != .value) ms ai = .ok (ms, ai, .unknown) ∧
+    ∀ fuel, ai.atEnd = false → groupsLoop (fuel + 1) ms ai = .throw .runtime_error :=
+  ⟨offer_value_nobody ms ai hty hall, fun fuel hend => groupsLoop_value_nobody fuel ms ai hty hend hall⟩
 
 /-! ### defining the same key in two members -/
 
@@ -130,6 +177,39 @@ theorem C08_cross_check_exact {α : Type} (own : List (Key × α)) (others : Lis
     (groupAddArgument own others k a = .throw .invalid_argument ∧
       ((∃ e ∈ own, e.1.Clash k) ∨ ∃ t ∈ others, ∃ o ∈ t, k.Clash o)) :=
   groupAddArgument_cases own others k a hprev
+
+/-- Lifted to registration histories: `n` members are created, then arguments are defined in any
+    sequence `defs` of (member, key specification) pairs (`groupDefineSeq`, the model of
+    `Handler::addArgument` on handlers used by a group, validated against the real classes by the
+    `pa gdef` operation).  If no definition was refused, then
+    * the members' tables are `tables` with `tables[m]` = exactly the keys defined for member `m`, in
+      order (`definedKeys`), and no two keys of the group clash — neither inside a member nor
+      between two members (`TablesDisjoint`);
+    * any members `ms` whose key tables are these are `MembersDisjoint` — the hypothesis `hd` of
+      `C08_dispatch_partial`;
+    * any configuration `cfg` whose arguments, distributed by `argMember`, have per member the keys
+      of that member's table in some order satisfies `Disjoint cfg.table` — the clause `disj` of
+      `GroupWellFormed` in `C08_group_equiv_partial`.
+    So "keys pairwise non-clashing" holds for every group that could be set up at all. -/
+theorem C08_accepted_history_disjoint (n : Nat) (defs : List (Nat × List Char))
+    (hacc : groupDefineSeq (List.replicate n []) defs 0 = none) :
+    ∃ tables, groupDefineTables (List.replicate n []) defs = some tables ∧ tables.length = n ∧
+      (∀ m, m < n → tables.getD m [] = definedKeys defs m) ∧
+      TablesDisjoint tables ∧
+      (∀ ms : List (Cfg × HState), ms.map (fun m => m.1.table.map (·.1)) = tables.map (fun t => t.map (·.1)) →
+        MembersDisjoint ms) ∧
+      (∀ (cfg : Cfg) (argMember : List Nat), argMember.length = cfg.args.length →
+        (∀ m, ((pick (memberArgIdx argMember m) cfg.args).map (·.key)).Perm ((tables.getD m []).map (·.1))) →
+        Disjoint cfg.table) := by
+  obtain ⟨tables, ht⟩ := (groupDefineSeq_none_iff defs _ 0).mp hacc
+  obtain ⟨hdis, hlen⟩ := groupDefineTables_disjoint defs _ tables (tablesDisjoint_replicate n) ht
+  rw [List.length_replicate] at hlen
+  refine ⟨tables, ht, hlen, ?_, hdis, fun ms hms => membersDisjoint_of_tables hdis ms hms,
+    fun cfg am alen hperm => disjoint_of_tables hdis cfg am alen hperm⟩
+  intro m hm
+  have := groupDefineTables_content defs _ tables ht m (by rw [List.length_replicate]; exact hm)
+  rw [this, List.getD_eq_getElem?_getD, List.getElem?_replicate, if_pos hm]
+  rfl
 
 /-! ### known finding: abbreviations are resolved per member -/
 
@@ -170,7 +250,12 @@ theorem C08_finding_group_abbreviation :
     constraint (differ / disjoint) is as `validValueArguments` leaves it, over int / string resp. two
     list arguments (`Cfg.ValueArgsOk`); every member is registered
     once and every argument / handler constraint belongs to a registered member.  One initial value
-    per argument.  The command line contains neither the word `!` nor a comma (`ArgvPlain`).
+    per argument.  The command line contains no word `!`, and no comma inside a typed long key: in
+    a word that starts with a dash, no comma between a later dash and the next `=` or the end of the
+    word (`ArgvPlain`; `--x,lll` and `-a-x,lll` are excluded, list values in any spelling —
+    `-m 1,2,3`, `-m 1,-2`, `--list=1,2,3`, `-m1,2,3` — are inside).
+    The key hypothesis `disj` holds for every group that could be registered
+    (`C08_accepted_history_disjoint`).
     Then (`GroupAgrees`):
     * the single handler accepts ⇒ the group accepts, and the destinations read through the group in
       the order of `cfg.args` (`groupDests`) carry exactly the argument states (value, value-set and
@@ -179,7 +264,10 @@ theorem C08_finding_group_abbreviation :
       checks, `requires`/`excludes`, all-of/any-of/one-of/differ/disjoint included — except that an
       unknown argument
       is a `std::invalid_argument` for `Handler` and a `std::runtime_error` for `Groups`;
-    * hence the group accepts exactly when the single handler does.
+    * hence the group accepts exactly when the single handler does (`C08_group_accepts_iff_partial`).
+    `GroupAgrees` allows `std::invalid_argument` of the single handler to become
+    `std::runtime_error` of the group whatever its cause; in the model only the unknown-argument
+    refusal of `iterateLoop` does.
     What is missing for the full statement: abbreviations (refuted by
     `C08_finding_group_abbreviation`), the inversion word `!`, a comma inside a typed long key, a
     positional argument (refuted by the three `C08_witness_…` theorems), and constraints whose
@@ -191,6 +279,21 @@ theorem C08_group_equiv_partial (cfg : Cfg) (inits : List DVal) (argMember globM
     GroupAgrees (evalArguments cfg (cfg.initState inits) {} argv)
       (groupDests cfg argMember order <$> groupsEval cfg inits argMember globMember order argv) :=
   group_agrees cfg inits argMember globMember order argv hwf hne hinits hargv
+
+/-- End to end: under the same hypotheses the group accepts a command line exactly when the single
+    handler owning all arguments accepts it.  In particular every rule attached inside a member
+    (mandatory, cardinality, value checks, `requires`/`excludes`, handler constraints) whose
+    violation makes the stand-alone handler refuse the line makes the group refuse it, and the
+    group refuses nothing else. -/
+theorem C08_group_accepts_iff_partial (cfg : Cfg) (inits : List DVal) (argMember globMember order : List Nat)
+    (argv : List Word) (hwf : GroupWellFormed cfg argMember globMember order) (hne : order ≠ [])
+    (hinits : inits.length = cfg.args.length) (hargv : ArgvPlain argv) :
+    (groupsEval cfg inits argMember globMember order argv).isOk =
+      (evalArguments cfg (cfg.initState inits) {} argv).isOk := by
+  have h := group_agrees cfg inits argMember globMember order argv hwf hne hinits hargv
+  cases hs : evalArguments cfg (cfg.initState inits) {} argv <;>
+    cases hg : groupsEval cfg inits argMember globMember order argv <;>
+    rw [hs, hg] at h <;> first | rfl | exact h.elim
 
 /-- The simulation behind it, member by member: under the same hypotheses, when the single handler
     accepts with final state `H'`, the group accepts with member states `ms` such that, for the
@@ -219,9 +322,14 @@ theorem C08_group_states_partial (cfg : Cfg) (inits : List DVal) (argMember glob
       unfold groupViews; rw [List.getElem?_map, hp]; rfl
     exact GRel_at hrel p _ this
 
-/-! ### why the other hypotheses are there (witnesses on the model; abbreviations off in all three) -/
+/-! ### why the other hypotheses are there (abbreviations off in all three)
 
-/-- The inversion word: flags `-x` (member 0) and `-y` (member 1), command line `-x ! -y`.  A single
+  All three were replayed on the real `Groups` / `Handler` objects (implementation = model) and are
+  recorded as known findings `group-inversion-word-first-member-only`,
+  `group-comma-in-typed-long-key`, `group-positional-takes-free-value` (known_findings.d/progargs.json);
+  the theorems below are their Lean negations. -/
+
+/-- Known finding `group-inversion-word-first-member-only`.  The inversion word: flags `-x` (member 0) and `-y` (member 1), command line `-x ! -y`.  A single
     handler rejects it (`!` sets its inversion marker, `-y` does not allow inverting); through the
     group `!` is consumed by member 0 alone and `-y`, handled by member 1, is accepted. -/
 theorem C08_witness_inversion_word :
@@ -244,7 +352,7 @@ theorem C08_witness_inversion_word :
             [.flag false, .flag false] [0, 1] [] [0, 1] ["p".toList, "-x".toList, "!".toList, "-y".toList]) := by
   decide +kernel
 
-/-- A comma in a typed long key: `--lll` (member 1) defined before `-x` (member 0), members
+/-- Known finding `group-comma-in-typed-long-key`.  A comma in a typed long key: `--lll` (member 1) defined before `-x` (member 0), members
     registered in the order 0, 1, command line `--x,lll`.  `ArgumentKey( "x,lll")` equals both keys;
     the single handler takes the first in definition order (`--lll`), the group the first in member
     order (`-x`). -/
@@ -268,7 +376,7 @@ theorem C08_witness_comma_key :
             [.flag false, .flag false] [1, 0] [] [0, 1] ["p".toList, "--x,lll".toList]) := by
   decide +kernel
 
-/-- A positional argument: member 0 defines the positional argument, member 1 the multi-value `-m`;
+/-- Known finding `group-positional-takes-free-value`.  A positional argument: member 0 defines the positional argument, member 1 the multi-value `-m`;
     `-m 1 2`.  The single handler stores `[1, 2]` in `m`; in the group member 0 is asked first for the
     free value `2` and its positional argument takes it. -/
 theorem C08_witness_positional_first :
@@ -301,6 +409,10 @@ theorem C08_witness_positional_first :
 example : GroupWellFormed exCfg exArgMember exGlobMember [0, 1] := exCfg_wf _ (Or.inl rfl)
 example : GroupWellFormed exCfg exArgMember exGlobMember [1, 0] := exCfg_wf _ (Or.inr rfl)
 example : ArgvPlain exArgvOk ∧ ArgvPlain exArgvRequires ∧ ArgvPlain exArgvStale := exArgv_plain
+-- list values are inside `ArgvPlain`; the comma-in-key witness and the inversion word are not
+example : ArgvPlain exArgvList := exArgvList_plain
+example : ¬ ArgvPlain ["p".toList, "--x,lll".toList] ∧ ¬ ArgvPlain ["p".toList, "-x".toList, "!".toList] ∧
+    ¬ ArgvPlain ["p".toList, "-a-x,lll".toList] := exArgv_not_plain
 example : exInits.length = exCfg.args.length := rfl
 
 -- accepted: `-m 1 2 -x -y --name=abc`, with the destinations of the single handler
@@ -310,6 +422,14 @@ example : (match groupsEval exCfg exInits exArgMember exGlobMember [1, 0] exArgv
     | _ => []) = [.flag true, .flag true, .vec [1, 2], .str "abc".toList] := by decide +kernel
 example : GroupAgrees (evalArguments exCfg (exCfg.initState exInits) {} exArgvOk)
     (groupDests exCfg exArgMember [0, 1] <$> groupsEval exCfg exInits exArgMember exGlobMember [0, 1] exArgvOk) := by
+  decide +kernel
+
+-- list values through the group: `-m 1,2,3 -x -y --name=a,b -m4,-5`, same destinations as the single handler
+example : (match groupsEval exCfg exInits exArgMember exGlobMember [1, 0] exArgvList with
+    | .ok ms => (groupDests exCfg exArgMember [1, 0] ms).map (·.2.dest)
+    | _ => []) = [.flag true, .flag true, .vec [1, 2, 3, 4, -5], .str "a,b".toList] := by decide +kernel
+example : GroupAgrees (evalArguments exCfg (exCfg.initState exInits) {} exArgvList)
+    (groupDests exCfg exArgMember [1, 0] <$> groupsEval exCfg exInits exArgMember exGlobMember [1, 0] exArgvList) := by
   decide +kernel
 
 -- rejected by a rule attached inside member 0 (`-x` requires `-y`): `-m 1 -x`; the pinned code,
@@ -340,7 +460,36 @@ example : GroupAgrees (evalArguments exCfgV (exCfgV.initState exInitsV) {} exArg
     (groupDests exCfgV [0, 0, 1] [1, 0] <$> groupsEval exCfgV exInitsV [0, 0, 1] [0] [1, 0] exArgvVDiff) ∧
     (groupsEval exCfgV exInitsV [0, 0, 1] [0] [1, 0] exArgvVDiff).isOk = true := by decide +kernel
 
--- dispatch: `-y` goes to member 0 in either registration order; cross check: `-m` cannot be added to member 0
+-- dispatch of a key element: `-y` (cursor of `p -y`) with member 1 registered before member 0 — all
+-- hypotheses of `C08_dispatch_partial` hold, and the offer stores the flag in member 0 only
+example : (match It.begin ["p".toList, "-y".toList] with | .ok it => decide (it = exItKey) | _ => false) = true := by
+  decide
+example : ElemKey exItKey ky ∧ ky.Single := ⟨Or.inl ⟨rfl, rfl⟩, Or.inr rfl⟩
+example : ∀ m ∈ [exM1] ++ exM0 :: [], m.1.abbr = false := by decide
+example : MembersDisjoint ([exM1] ++ exM0 :: []) := by unfold MembersDisjoint; decide
+example : ∃ e ∈ exM0.1.table, e.1.Clash ky := by decide
+example : (match offer (exItKey.cur.ty != .value) ([exM1] ++ exM0 :: []) exItKey with
+    | .ok x => some (x.1.map (fun (m : Cfg × HState) => m.2.args.map (fun a => a.dest)), x.2.2)
+    | _ => none) = some ([[.vec [], .str []], [.flag false, .flag true]], .consumed) := by decide +kernel
+
+-- dispatch of a free value: `2,3` after `-m 1`, member 0 registered first passes it on, member 1 (last
+-- argument `-m`, multi-value) takes it — all hypotheses of `C08_dispatch_value_partial` hold
+example : exItVal.cur.ty = .value := rfl
+example : PassesValue exM0 := ⟨rfl, by decide, by intro i d h; cases h⟩
+example : exM1m.2.lastArg = some 0 ∧ (∃ d, exM1m.1.args[0]? = some d ∧ d.multi = true) := ⟨rfl, _, rfl, rfl⟩
+example : (match offer (exItVal.cur.ty != .value) ([exM0] ++ exM1m :: []) exItVal with
+    | .ok x => some (x.1.map (fun (m : Cfg × HState) => m.2.args.map (fun a => a.dest)), x.2.2)
+    | _ => none) = some ([[.flag false, .flag false], [.vec [2, 3], .str []]], .consumed) := by decide +kernel
+-- … and nobody takes it when member 1 did not handle `-m` last
+example : PassesValue exM1 := ⟨rfl, by decide, by intro i d h; cases h⟩
+
+-- registration histories: an accepted one (the tables of `exCfg`), and one refused at definition 2
+example : groupDefineSeq (List.replicate 2 [])
+    [(0, "x".toList), (1, "m,max".toList), (0, "y".toList), (1, "name".toList)] 0 = none := by decide
+example : groupDefineSeq (List.replicate 2 []) [(0, "x".toList), (1, "m,max".toList), (0, "max".toList)] 0 =
+    some (.invalid_argument, 2) := by decide
+
+-- cross check, one definition: `-m` cannot be added to member 0
 example : groupAddArgument [(kx, 0), (ky, 1)] [[⟨some 'm', []⟩, ⟨none, "name".toList⟩]] ⟨some 'm', "max".toList⟩ 2 =
     .throw .invalid_argument := rfl
 example : groupAddArgument [(kx, 0), (ky, 1)] [[⟨some 'm', []⟩, ⟨none, "name".toList⟩]] ⟨some 'z', []⟩ 2 =
